@@ -87,8 +87,12 @@ theorem runHandler_nomark : ∀ (h : Handler) (k : K), NoMarkK k → NoMarkK (ru
   | .fail id st, k, _ => fun r t => by simp [runHandler, Out.isMarker]
   | .raise src, k, _ => fun r t => by simp [runHandler, Out.isMarker]
   | .invoke n, k, _ => fun r t => by simp [runHandler, Out.isMarker]
-  | .answer src, k, _ => fun r t => by
-    cases src <;> simp only [runHandler, Src.resolve] <;> (try cases r.replStatus) <;> simp [Out.isMarker]
+  | .answer src, k, hk => fun r t => by
+    simp only [runHandler]
+    cases answerStep src r with
+    | write n => simp [Out.isMarker]
+    | hint => exact hk r _
+    | fail => simp [Out.isMarker]
   | .sub rs hasErrs errs, k, hk => fun r t => by
     simp only [runHandler]
     cases hr : runRoutes rs reachK r t with
@@ -145,7 +149,7 @@ theorem specHandler_no_marker : ∀ (h : Handler) (r : Req) (t : Trace), (specHa
   | .raise src, r, t => by simp [specHandler, Res.NoMarker]
   | .invoke n, r, t => by simp [specHandler, Res.NoMarker]
   | .answer src, r, t => by
-    cases src <;> simp only [specHandler, Src.resolve] <;> (try cases r.replStatus) <;> simp [Res.NoMarker]
+    simp only [specHandler]; cases answerStep src r <;> simp [Res.NoMarker]
   | .sub rs hasErrs errs, r, t => by
     rw [specHandler]
     cases hs : specRoutes rs r t with
@@ -207,8 +211,7 @@ theorem h_ok : ∀ (h : Handler) (k : K) (r : Req) (t : Trace),
   | .raise src, k, r, t => by simp [runHandler, specHandler, Res.bind]
   | .invoke n, k, r, t => by simp [runHandler, specHandler, Res.bind]
   | .answer src, k, r, t => by
-    cases src <;> simp only [runHandler, specHandler, Res.bind] <;>
-      (try cases Src.resolve _ r) <;> simp
+    simp only [runHandler, specHandler]; cases answerStep src r <;> simp [Res.bind]
   | .sub rs hasErrs errs, k, r, t => by
     simp only [runHandler, specHandler]
     rw [rs_ok rs reachK r t]
@@ -365,7 +368,7 @@ theorem specHandler_keeps : ∀ (h : Handler) (r : Req) (t : Trace), (specHandle
   | .raise src, r, t => by simp [specHandler, Res.KeepsGroups]
   | .invoke n, r, t => by simp [specHandler, Res.KeepsGroups]
   | .answer src, r, t => by
-    cases src <;> simp only [specHandler] <;> (try split) <;> simp [Res.KeepsGroups]
+    simp only [specHandler]; cases answerStep src r <;> simp [Res.KeepsGroups]
   | .sub rs hasErrs errs, r, t => by
     rw [specHandler]
     have h1 := specRoutes_keeps rs r t
@@ -458,7 +461,7 @@ theorem specHandler_olds : ∀ (h : Handler) (r : Req) (t : Trace), (specHandler
   | .raise src, r, t => by simp [specHandler, Res.OldsGE]
   | .invoke n, r, t => by simp [specHandler, Res.OldsGE]
   | .answer src, r, t => by
-    cases src <;> simp only [specHandler] <;> (try split) <;> simp [Res.OldsGE]
+    simp only [specHandler]; cases answerStep src r <;> simp [Res.OldsGE]
   | .sub rs hasErrs errs, r, t => by
     rw [specHandler]
     have h1 := specRoutes_olds rs r t
@@ -583,9 +586,12 @@ theorem runHandler_pok : ∀ (h : Handler) (k : K), KPlaceholderOk k → KPlaceh
     simp only [runHandler]; exact pok_err _ _ (snoc_ok ht (ev_ok id r hr))
   | .raise src, k, _ => fun r t _ ht => by simp only [runHandler]; exact pok_err _ _ ht
   | .invoke n, k, _ => fun r t _ ht => by simp only [runHandler]; exact pok_err _ _ ht
-  | .answer src, k, _ => fun r t _ ht => by
-    cases src <;> simp only [runHandler, Src.resolve] <;> (try cases r.replStatus) <;>
-      first | exact pok_done _ ht | exact pok_err _ _ ht
+  | .answer src, k, hk => fun r t hr ht => by
+    simp only [runHandler]
+    cases answerStep src r with
+    | write n => exact pok_done _ ht
+    | hint => exact hk r _ hr (snoc_ok ht (by intro st h; cases h))
+    | fail => exact pok_err _ _ ht
   | .sub rs hasErrs errs, k, hk => fun r t hr ht => by
     simp only [runHandler]
     have h1 := runRoutes_pok rs reachK kOk_reachK r t hr ht
